@@ -124,6 +124,9 @@ class LimitHarness(planh.PlanHarness):
                 return msgs, okey
         elif x.status != "ok":
             msgs.append(("C07", f"{x.status}: {s.deadlock_info}"))
+            if self.fail and cfg.get("max_errors", 0) is None:
+                runnable = {i for i in range(self.n) if not any(a in self.fail for a in self.anc[i])}
+                msgs.append(("C10", f"max_errors=None: the run never finished ({x.status}) and calls {sorted(runnable - set(order))} without failed dependency were not executed"))
             return msgs, okey
         if ctx["max_ops"] > W:
             msgs.append(("C10", f"{ctx['max_ops']} calls / store operations were in flight at once with max_workers={W}"))
@@ -169,6 +172,13 @@ def cfgs_barrier(tier):
             for W in (w - 1, w, w + 1):
                 for sc in ("default", "random"):
                     out.append({"n": n, "edges": edges, "output": list(range(n)), "W": W, "sched": sc, "barrier": w, "barrier_calls": calls})
+    # the pool keeps its size after failures of every kind: one call fails (tolerated), then w calls must still meet
+    for w in (2, 3):
+        for W in (w,):
+            for kind in ("exc", "base", "sysexit"):
+                for sc in ("default", "random"):
+                    out.append({"n": w + 1, "edges": [], "output": list(range(w + 1)), "W": W, "sched": sc, "barrier": w, "barrier_calls": list(range(1, w + 1)),
+                                "fail": {"0": kind}, "max_errors": None})
     for w in (2, 3):
         for W in (w - 1, w, w + 1):
             for extra in (0, 1):
